@@ -6,6 +6,7 @@ import (
 	"fmt"
 	"io"
 	"sort"
+	"time"
 
 	mux "github.com/cbeuw/Cloak/internal/multiplex"
 	"github.com/cbeuw/Cloak/internal/simsync"
@@ -27,6 +28,11 @@ type C14Scenario struct {
 	// ReadBuf[side][stream]: buffer of the reader; a too small one must get
 	// io.ErrShortBuffer and then the same datagram with an adequate buffer
 	ReadBuf [2][]int `json:"read_buf"`
+	// lagging readers: a reader waits ReaderLagMS (virtual) before its first
+	// Read and again after every LagEvery datagrams, so that a backlog of
+	// unread datagrams builds up behind it
+	ReaderLagMS int `json:"reader_lag_ms,omitempty"`
+	LagEvery    int `json:"lag_every,omitempty"`
 }
 
 const dgHdr = 8
@@ -58,6 +64,29 @@ func genC14(g *Gen) any {
 	}
 	maxPay := limit - 14 - 255
 	sc.NStreams = g.Int(1, 4)
+	if g.Bool(0.12) {
+		// bursts behind a lagging reader: dozens of small datagrams queue up
+		sc.NStreams = g.Int(1, 2)
+		sc.ReaderLagMS, sc.LagEvery = 1000, g.Pick(1, 3, 7, 16, 17, 40)
+		for s := 0; s < sc.NStreams; s++ {
+			for side := 0; side < 2; side++ {
+				if side == 1 && g.Bool(0.5) {
+					continue
+				}
+				snd := C14Sender{Stream: s, Side: side}
+				for j := 0; j < g.Int(18, 120); j++ {
+					snd.Sizes = append(snd.Sizes, g.Pick(dgHdr, dgHdr+1, 30, 64, g.Int(dgHdr, 300)))
+				}
+				sc.Senders = append(sc.Senders, snd)
+			}
+		}
+		for side := 0; side < 2; side++ {
+			for s := 0; s < sc.NStreams; s++ {
+				sc.ReadBuf[side] = append(sc.ReadBuf[side], limit+100)
+			}
+		}
+		return sc
+	}
 	for s := 0; s < sc.NStreams; s++ {
 		for side := 0; side < 2; side++ {
 			k := g.Int(1, 3)
@@ -171,6 +200,9 @@ func runC14(c *Ctx, scAny any) {
 				big := make([]byte, limit+200)
 				retry := false
 				for {
+					if sc.ReaderLagMS > 0 && got[side][s]%max(sc.LagEvery, 1) == 0 && !retry {
+						Sleep(time.Duration(sc.ReaderLagMS) * time.Millisecond)
+					}
 					buf := small
 					if retry {
 						buf = big
